@@ -193,17 +193,25 @@ def h_call_sync(t, part):
     e, ns = 'e0', NSS[t.choice(2)]
     sid = live[(e, ns)]
     acked = []
+    fired2 = []
     script = {'n': 0}
 
     def hook(ev, timeout):
         # while call() is blocked: a tape-chosen sequence of environment actions
         for _ in range(2):
-            k = t.choice(4)
+            k = t.choice(5)
             if k == 0:
                 return                  # nothing more happens: the timeout expires
             pk = [p for p in w.take(e) if not isinstance(p, tuple) and p.packet_type == packet.EVENT]
             if pk:
                 script['id'] = pk[0].id
+            if k == 4:
+                # another thread of the application emits to the same client with a callback of its own
+                if 'id2' not in script and not script.get('gone'):
+                    w.s.emit('q2', 7, to=sid, namespace=ns, callback=lambda *a: fired2.append(a))
+                    pk2 = [p for p in w.take(e) if not isinstance(p, tuple) and p.packet_type == packet.EVENT]
+                    script['id2'] = pk2[0].id if pk2 else None
+                continue
             if k == 1 and 'id' in script and not acked:
                 nargs = t.choice(3)
                 data = [t.int(-2, 2) for _ in range(nargs)]
@@ -228,6 +236,14 @@ def h_call_sync(t, part):
     finally:
         waithook.HOOK[0] = None
     t.reached('call')
+    if 'id2' in script and not script.get('gone'):
+        # the other emit's callback is untouched by however the call() ended: its acknowledgement arrives now
+        if script['id2'] is None or script['id2'] == script.get('id'):
+            return Fail('call:other-emit-id', 'the emit during the call carried id %r (the call: %r)' % (script['id2'], script.get('id')))
+        w.send(e, w.P(packet.ACK, data=[42], namespace=ns, id=script['id2']))
+        if fired2 != [(42,)]:
+            return Fail('call:other-callback-lost', 'call() ended with %r; the callback of another emit to the same client, '
+                        'acknowledged afterwards, ran %r' % (r, fired2))
     if acked:
         d = acked[0]
         exp = None if len(d) == 0 else d[0] if len(d) == 1 else tuple(d)
@@ -290,6 +306,7 @@ def h_call_async(t, part):
     e, ns = 'e0', NSS[t.choice(2)]
     sid = live[(e, ns)]
     acked = []
+    fired2 = []
     out = {}
 
     async def caller():
@@ -302,7 +319,13 @@ def h_call_async(t, part):
         # the event is on the wire once the caller has run its emit; wait for it without polling
         await miniloop._Suspend('cond', lambda: len(w.frames(e)) > w.pos.get(e, 0), None, 'peer waits for event')
         pk = [p for p in w.take(e) if not isinstance(p, tuple) and p.packet_type == packet.EVENT]
-        k = t.choice(4)
+        k = t.choice(5)
+        if k == 4:
+            # another task of the application emits to the same client with a callback of its own; its
+            # acknowledgement arrives after the call() has ended
+            await w.s.emit('q2', 7, to=sid, namespace=ns, callback=lambda *a: fired2.append(a))
+            pk2 = [p for p in w.take(e) if not isinstance(p, tuple) and p.packet_type == packet.EVENT]
+            out['id2'] = (pk2[0].id if pk2 else None, pk[0].id)
         if k == 1:
             nargs = t.choice(3)
             data = [t.int(-2, 2) for _ in range(nargs)]
@@ -324,6 +347,15 @@ def h_call_async(t, part):
             return Fail('call:task-exception:%s' % type(tk.exc).__name__, repr(tk.exc))
     r = out.get('r')
     t.reached('call')
+    if 'id2' in out:
+        id2, id1 = out['id2']
+        if id2 is None or id2 == id1:
+            return Fail('call:other-emit-id', 'the emit during the call carried id %r (the call: %r)' % (id2, id1))
+        w.drv.loop.chooser = lambda n: 0
+        w.send(e, w.P(packet.ACK, data=[42], namespace=ns, id=id2))
+        if fired2 != [(42,)]:
+            return Fail('call:other-callback-lost', 'call() ended with %r; the callback of another emit to the same client, '
+                        'acknowledged afterwards, ran %r' % (r, fired2))
     if acked:
         d = acked[0]
         exp = None if len(d) == 0 else d[0] if len(d) == 1 else tuple(d)
@@ -361,7 +393,7 @@ META = dict(
                      'namespaces; ACK arguments 0..2 symbolic ints; at most one callback invocation raises (symbolic index); then '
                      'one emit-with-callback to every live client and an acknowledgement of every callback still outstanding; '
                      'call(): one call with up to 2 environment actions during the wait (ACK with 0..2 args, '
-                     'DISCONNECT, foreign ACK, nothing); asyncio: all miniloop schedules of caller || peer',
+                     'DISCONNECT, foreign ACK, another emit with a callback to the same client - acknowledged after the call has ended -, nothing); asyncio: all miniloop schedules of caller || peer',
             'thorough': 'same with histories of 4 operations'},
     outside=['callbacks on multi-recipient emits (documented unsupported)', 'more than one raising callback', 'ids above 4 other than 10^20',
              'payload shapes (C02)'],
